@@ -35,6 +35,7 @@ SLOTS = {
 SLOTS_T = {"list": "G(k=[F, 1]) | 0\n", "list2": "G(1, k=[2, F], l=[F]) | 0\n"}
 VALUE_CLASSES = {
     "dyadic": [0.5, -1.25, 2.0], "integer": [2, 7, -3], "generic": [0.1, 1 / 3, 1e-3, 123.456, 3.141592653589793], "complex": [1 + 2j, -0.5j],
+    "zero": [0.0, 0, 1.5],      # a value is a value: zero of either kind next to an ordinary one (forms that divide by it are out of domain)
 }
 NAMESETS = [("a", "b"), ("alpha", "a"), ("x1", "e")]
 NAMESETS_T = [("p0", "p1"), ("p", "pp"), ("n", "x"), ("B", "i")]   # incl. names that collide with declared variables, arrays and loop variables
@@ -126,6 +127,23 @@ def _container(v, kind):
 CONTAINERS = ["list", "tuple", "ndarray", "fortran", "transposed-view", "reversed-view", "strided-view"]
 
 
+def _nonfinite(prog):
+    import numpy as np
+
+    def bad(v):
+        if isinstance(v, (list, tuple)):
+            return any(bad(x) for x in v)
+        if isinstance(v, np.ndarray):
+            try:
+                return not np.all(np.isfinite(v.astype(complex)))
+            except (TypeError, ValueError):
+                return False
+        if isinstance(v, (int, float, complex, np.number)) and not isinstance(v, bool):
+            return not np.isfinite(complex(v))
+        return False
+    return any(bad(v) for o in prog.operations for v in list(o.get("args", [])) + list(o.get("kwargs", {}).values())) or any(bad(v) for v in prog.variables.values())
+
+
 def judge(src, vv, expect_params):
     container = vv.get("__container__")
     vv = {k: v for k, v in vv.items() if k != "__container__"}
@@ -147,6 +165,8 @@ def judge(src, vv, expect_params):
     st2, r = common.loads(H + sub)
     if st2 == "exc":
         return "skip"      # the substituted script is outside the domain (e.g. division by zero): not a verdict on the template
+    if _nonfinite(r):
+        return "skip"      # a division by zero that the evaluator turns into inf / nan: outside the domain just the same
     try:
         inst = t(**{k: (v if not isinstance(v, list) else _container(v, container)) for k, v in vv.items()})
     except Exception as e:  # noqa
